@@ -46,6 +46,15 @@ type Case struct {
 	// FailKind: "" = a statement naming a missing table; "or_rollback" = a constraint violation with the
 	// SQLite conflict clause OR ROLLBACK (the engine itself rolls the open transaction back).
 	FailKind string `json:"fail_kind,omitempty"`
+	// NoFK: the database URL carries no _fk=1 (SQLite's default: foreign keys not enforced).
+	NoFK bool `json:"no_fk,omitempty"`
+}
+
+func dbURL(w *clih.Work, c Case) string {
+	if c.NoFK {
+		return strings.TrimSuffix(w.URL("db.sqlite"), "?_fk=1")
+	}
+	return w.URL("db.sqlite")
 }
 
 func failingOf(c Case) string {
@@ -221,7 +230,7 @@ func applyArgs(w *clih.Work, c Case, extra ...string) []string {
 	if c.Count > 0 {
 		a = append(a, strconv.Itoa(c.Count))
 	}
-	a = append(a, "--dir", "file://"+w.Path("migrations"), "--url", w.URL("db.sqlite"), "--lock-timeout", "1ms")
+	a = append(a, "--dir", "file://"+w.Path("migrations"), "--url", dbURL(w, c), "--lock-timeout", "1ms")
 	if c.Mode != "" {
 		a = append(a, "--tx-mode", c.Mode)
 	}
@@ -569,7 +578,7 @@ func evalSchema(c Case) (problems []string, skipped string) {
 	}
 	os.WriteFile(w.Path("desired.hcl"), []byte(sc.desired), 0o644)
 	before, _ := w.Dump("db.sqlite")
-	args := []string{"schema", "apply", "--url", w.URL("db.sqlite"), "--to", "file://" + w.Path("desired.hcl"), "--auto-approve"}
+	args := []string{"schema", "apply", "--url", dbURL(w, c), "--to", "file://" + w.Path("desired.hcl"), "--auto-approve"}
 	if c.Kind == "schema_dryrun" {
 		args[len(args)-1] = "--dry-run"
 	}
@@ -833,6 +842,7 @@ func cases(tier string) []Case {
 						for _, n := range counts {
 							cs = append(cs, Case{Kind: "migrate_fail", Mode: mode, Shape: s2, FailF: f, FailK: k, Count: n})
 							if n == 0 && d == (dir{}) {
+								cs = append(cs, Case{Kind: "migrate_fail", Mode: mode, Shape: s2, FailF: f, FailK: k, NoFK: true})
 								cs = append(cs, Case{Kind: "migrate_fail", Mode: mode, Shape: s2, FailF: f, FailK: k, FailKind: "or_rollback"})
 							}
 						}
@@ -891,6 +901,7 @@ func cases(tier string) []Case {
 			continue
 		}
 		cs = append(cs, Case{Kind: "schema_fail", Scen: name, FailF: -1, Extra: "prompt"}, Case{Kind: "schema_fail", Scen: name, Mode: "file", FailF: -1, Extra: "prompt"})
+		cs = append(cs, Case{Kind: "schema_fail", Scen: name, FailF: -1, NoFK: true}, Case{Kind: "schema_fail", Scen: name, Mode: "file", FailF: -1, NoFK: true})
 		cs = append(cs, Case{Kind: "schema_fail", Scen: name, FailF: -1}, Case{Kind: "schema_fail", Scen: name, Mode: "none", FailF: -1},
 			Case{Kind: "schema_fail", Scen: name, Mode: "file", FailF: -1}, Case{Kind: "schema_dryrun", Scen: name, FailF: -1})
 	}
@@ -935,7 +946,7 @@ func classify(c Case, problems []string) string {
 
 func Run(r *report.Run) {
 	defer clih.Cleanup()
-	r.Rule = "real CLI on real SQLite files: (1) `migrate apply`: directory shapes (1-3 files x 1-3 statements, and directories with a checkpoint file preceded by older files) x a really failing statement (naming a missing table; for the plain directories also a constraint violation with the SQLite conflict clause OR ROLLBACK) at every position x tx-mode {file, all, none} x per-file txmode directive on the failing / preceding file x apply count {all, 1, 2} (plus every pair of failing positions in one file, repaired one after the other): the state after the failure (journal rows written by the statements themselves + revision rows, read by our own connection) must equal what the mode promises, and after repairing the file and re-running the full dump must equal that of a run that never failed; (1b) a failure of the commit itself: the SQLite driver refuses to commit a transaction that adds a foreign-key violation; on a database that already holds one (two) orphan rows the first file replaces them by another orphan (same / lower count), and on a database without violations the first file adds one in a child table with / without a rowid: file and all mode must fail and keep nothing; (1c) a commit that fails for a reason outside the file: another connection holds a read transaction on the database while the files are applied (connection with and without foreign-key enforcement): the command must fail, keep nothing of the files, and the same command again must complete; (2) `migrate apply --dry-run` from 5 start states (fresh, partially applied, one file applied, fully applied, non-empty without history) x modes x count x {--baseline, --allow-dirty}: dump and directory byte-identical; (3) `schema apply` on populated tables whose plan fails midway on the data, default / file / none tx-mode, approved by --auto-approve or at the prompt, and --dry-run (also of plans that would succeed, alone and together with --format / --log / --auto-approve); non-trivial = every case; distinct = the case tuple"
+	r.Rule = "real CLI on real SQLite files: (1) `migrate apply`: directory shapes (1-3 files x 1-3 statements, and directories with a checkpoint file preceded by older files) x a really failing statement (naming a missing table; for the plain directories also a constraint violation with the SQLite conflict clause OR ROLLBACK) at every position x tx-mode {file, all, none} (also with a database URL that does not switch foreign-key enforcement on) x per-file txmode directive on the failing / preceding file x apply count {all, 1, 2} (plus every pair of failing positions in one file, repaired one after the other): the state after the failure (journal rows written by the statements themselves + revision rows, read by our own connection) must equal what the mode promises, and after repairing the file and re-running the full dump must equal that of a run that never failed; (1b) a failure of the commit itself: the SQLite driver refuses to commit a transaction that adds a foreign-key violation; on a database that already holds one (two) orphan rows the first file replaces them by another orphan (same / lower count), and on a database without violations the first file adds one in a child table with / without a rowid: file and all mode must fail and keep nothing; (1c) a commit that fails for a reason outside the file: another connection holds a read transaction on the database while the files are applied (connection with and without foreign-key enforcement): the command must fail, keep nothing of the files, and the same command again must complete; (2) `migrate apply --dry-run` from 5 start states (fresh, partially applied, one file applied, fully applied, non-empty without history) x modes x count x {--baseline, --allow-dirty}: dump and directory byte-identical; (3) `schema apply` on populated tables whose plan fails midway on the data, default / file / none tx-mode, approved by --auto-approve or at the prompt, and --dry-run (also of plans that would succeed, alone and together with --format / --log / --auto-approve); non-trivial = every case; distinct = the case tuple"
 	r.Assumptions = []string{
 		"after a repair the hash / partial_hashes columns of the revision row legitimately differ from a never-failed run and are masked; timestamps are masked",
 		"`--tx-mode all` with per-file txmode directives is rejected by the CLI and not enumerated",
